@@ -281,7 +281,8 @@ def flags(ctx: Ctx):
     for name, vc in (("unweighted_cube_counts", "unweighted_valid_counts"), ("weighted_cube_counts", "weighted_valid_counts")):
         body = expand(ctx.repo, cm, name)  # helper lazyproperties of CubeMeasures inlined (a shared `_diff_nans` flag)
         if isinstance(body, ast.Call) and len(body.args) >= 2:
-            ctx.check_expr("flag-table", f"matrix/cubemeasure.py::CubeMeasures.{name}[diff_nans arg]", body.args[1], [f"True if self._cube.{vc} is not None else False", f"self._cube.{vc} is not None"], "a difference's count is NaN exactly when the response carries valid counts")
+            ctx.count("count constructors with a NaN flag")
+    valid_counts_flag_table(ctx)
     # stripe counts
     for cname, h in (("_WeightedCounts", "weighted"), ("_UnweightedCounts", "unweighted")):
         e = expand(ctx.repo, ctx.repo.cls(SM, cname), "subtotal_values", stop=lambda m: m.name == "base_values")
@@ -602,3 +603,73 @@ def gather_not_weights(ctx: Ctx):
                                  "a weighted sum over all categories: 0 x NaN = NaN, a missing value outside the subtotal's terms makes the subtotal missing")
     if not found:
         ctx.held("signed-merge.gather", f"{MS}, {SI}: every subtotal class", f"{n} functions: no weighted-sum (einsum / dot / @) subtotal", "", "positive control recognised")
+
+
+def valid_counts_flag_table(ctx: Ctx):
+    """"In a response that carries valid counts for a numeric measure a difference's count is NaN instead": the NaN flag a
+    slice's count measure is built with is True exactly when the counts it is built FROM are valid counts - decided as a
+    table over the count measures present in the response (weighted / unweighted valid counts, weighted counts), the
+    counts argument followed through `Cube.counts` / `Cube.unweighted_counts` to the measure they hand out."""
+    import itertools
+
+    from ..dectab import DTop, Raises, Sym, SymInterp
+    from . import c16
+
+    cm = ctx.repo.cls("matrix/cubemeasure.py", "CubeMeasures")
+    tables = {acc: c16.count_source_table(ctx, acc) for acc in ("counts", "unweighted_counts")}
+    for name in ("unweighted_cube_counts", "weighted_cube_counts"):
+        where = f"matrix/cubemeasure.py::CubeMeasures.{name} [NaN flag vs source of the counts]"
+        body = expand(ctx.repo, cm, name)
+        if not (isinstance(body, ast.Call) and len(body.args) >= 2):
+            ctx.undecided("flag-table.valid-counts", where, u(body)[:100], "a count-measure constructor taking (counts, flag, ...)")
+            continue
+        bad, n, undec = [], 0, None
+        for combo in itertools.product((True, False), repeat=3):
+            wvc, uvc, wc = combo
+
+            def atoms(x, wvc=wvc, uvc=uvc, wc=wc):
+                t = u(x)
+                if t == "self._cube.weighted_valid_counts":
+                    return Sym("weighted_valid_counts") if wvc else None
+                if t == "self._cube.unweighted_valid_counts":
+                    return Sym("unweighted_valid_counts") if uvc else None
+                if t == "self._cube.weighted_counts":
+                    return Sym("weighted_counts") if wc else None
+                if t in ("self._cube.counts", "self._cube.unweighted_counts"):
+                    return Sym("Cube." + t.split(".")[-1])
+                raise KeyError
+
+            class _I(SymInterp):
+                def compare(self, op, a, b):
+                    if isinstance(op, (ast.Is, ast.IsNot)) and (a is None or b is None):
+                        same = a is None and b is None
+                        return same if isinstance(op, ast.Is) else not same
+                    return super().compare(op, a, b)
+
+            try:
+                src = _I(atoms).ev(body.args[0])
+                flag = _I(atoms).ev(body.args[1])
+            except (DTop, Raises) as exc:
+                undec = str(exc)
+                break
+            st = src.text if isinstance(src, Sym) else repr(src)
+            if st.startswith("Cube."):
+                tab = tables[st.split(".")[1]]
+                if isinstance(tab, str):
+                    undec = tab
+                    break
+                st = tab[combo]
+            if st not in ("weighted_valid_counts", "unweighted_valid_counts", "weighted_counts", "unweighted_counts") or not isinstance(flag, bool):
+                undec = f"source {st[:60]}, flag {flag!r}"
+                break
+            n += 1
+            if flag != st.endswith("valid_counts"):
+                present = ", ".join(nm for nm, p in zip(("valid_count_weighted", "valid_count_unweighted", "weighted count"), combo) if p) or "plain counts only"
+                bad.append(f"response with {present}: built from {st}, NaN flag {flag}")
+        ctx.count("count-source / NaN-flag combinations", n)
+        if undec:
+            ctx.undecided("flag-table.valid-counts", where, "DECTAB: " + undec, "flag == (the counts are valid counts)")
+        else:
+            ctx.ob("flag-table.valid-counts", where, bad[:3] or f"{n} presence combinations agree", "the NaN flag is True exactly when the counts the measure is built from are valid counts", not bad,
+                   "the difference of two VALID counts is not a count of anybody: NaN; the difference of two counts is their signed merge")
+    ctx.require_min("count-source / NaN-flag combinations", 8)
